@@ -197,6 +197,25 @@ func runC07(c *core.Ctx) {
 			}
 		})
 	}
+	// nil versus empty message, a reader that hands over the last bytes together with io.EOF, a reader longer than needed
+	{
+		seed := bytes.Repeat([]byte{0x3C}, 32)
+		priv, std := ed25519.NewKeyFromSeed(seed), stded.NewKeyFromSeed(seed)
+		for _, m := range [][]byte{nil, {}, make([]byte, 0, 64)} {
+			if sig := ed25519.Sign(priv, m); !bytes.Equal(sig, stded.Sign(std, m)) || !ed25519.Verify(priv.Public().(ed25519.PublicKey), m, sig) {
+				c.Violate("C07/environment/nil-or-empty-message", "signature of a nil / empty message differs from crypto/ed25519 or is rejected", nil, "", nil)
+			}
+		}
+		gp, gk, err := ed25519.GenerateKey(&c07eofReader{data: append([]byte{}, seed...)})
+		c.Eval(4)
+		if err != nil || !bytes.Equal(gk, std) || !bytes.Equal(gp, std[32:]) {
+			c.Violate("C07/environment/reader-data-with-eof", fmt.Sprintf("GenerateKey from a reader that returns the 32 bytes together with io.EOF: %x, %v", []byte(gk), err), nil, "", nil)
+		}
+		gp, gk, err = ed25519.GenerateKey(&c07eofReader{data: append([]byte{}, seed[:31]...)})
+		if err == nil || gp != nil || gk != nil {
+			c.Violate("C07/generate/short-reader", "GenerateKey with 31 bytes + EOF returned a key", nil, "", nil)
+		}
+	}
 	c07Histories(c, &nontriv)
 	c07Aliasing(c, &nontriv)
 	c.Sample(map[string]interface{}{"seed": "00..00 with bit 37 set", "msg_len": 111, "contents": "ramp"})
@@ -354,4 +373,16 @@ func c07Aliasing(c *core.Ctx, nontriv *atomic.Int64) {
 			}
 		}
 	}
+}
+
+// c07eofReader returns all its data in one Read call together with io.EOF (allowed by the io.Reader contract).
+type c07eofReader struct{ data []byte }
+
+func (r *c07eofReader) Read(p []byte) (int, error) {
+	n := copy(p, r.data)
+	r.data = r.data[n:]
+	if len(r.data) == 0 {
+		return n, io.EOF
+	}
+	return n, nil
 }
